@@ -55,7 +55,7 @@ impl Prop for C07 {
     }
     fn components(&self) -> Value {
         json!({"real": ["sentinel-core: EntryBuilder, slot chain, flow ThrottlingChecker + flow slot, hotspot ThrottlingChecker + hotspot slot, utils::sleep_for_ns"],
-               "stub": ["clock and sleep (virtual, hook H1: a sleep advances the clock)", "getrandom (seeded)", "logger (none)"]})
+               "stub": ["clock and sleep (virtual, hook H1: a sleep advances the clock)", "getrandom (seeded)", "logger (a sink that formats every record of the library and discards it)"]})
     }
 
     fn generate(&self, rng: &mut Rng, slot_ns: u64, _avoid: bool) -> Value {
